@@ -49,7 +49,7 @@ fn mk(term: &InMemoryTerm, len: Option<u64>, hz: Option<u8>) -> ProgressBar {
 enum Op { Inc, Msg(&'static str), Log(&'static str), Len(u64), Pos(u64), Reset, Tick, Suspend }
 
 const LONG: &str = "a long message that is clearly wider than forty columns wide";
-const OPS: [Op; 11] = [Op::Inc, Op::Msg("short"), Op::Msg(LONG), Op::Msg("two\nlines"), Op::Msg(""), Op::Log("log line"),
+const OPS: [Op; 12] = [Op::Inc, Op::Msg("short"), Op::Msg(LONG), Op::Msg("two\nlines"), Op::Msg(""), Op::Msg("gap\n\nbelow"), Op::Log("log line"),
     Op::Log("a printed line that is wider than the forty columns of the terminal"), Op::Len(20), Op::Pos(5), Op::Reset, Op::Suspend];
 
 struct Model { logs: Vec<String>, msg: String, pos: u64, len: Option<u64>, cleared: bool }
@@ -94,7 +94,7 @@ pub fn bar_screen(_args: &[String]) -> String {
     for len in [Some(10u64), None] {
         for a in 0..OPS.len() {
             for b in 0..OPS.len() {
-                for c in [0usize, 3, 5, 9] {
+                for c in [0usize, 3, 5, 6, 10] {
                     let term = InMemoryTerm::new(H, W as u16);
                     let pb = mk(&term, len, None);
                     let mut m = Model { logs: vec![], msg: String::new(), pos: 0, len, cleared: false };
@@ -351,4 +351,131 @@ pub fn multi_finish(_args: &[String]) -> String {
         }
     }
     format!("{{\"found\": false, \"tried\": {}}}", tried)
+}
+
+
+/// C03 / C02: lines printed through the MultiProgress or through a member bar (also the empty line) appear
+/// once, in order, above the bars; the bars stay in order below them.  No bar is finished or dropped here.
+pub fn multi_logs(_args: &[String]) -> String {
+    std::panic::set_hook(Box::new(|_| {}));
+    let mut tried = 0u64;
+    let texts = ["", "text", "two\nlines"];
+    // op = (who, text): who 0 = mp.println, 1..=3 = bar_i.println, 4 = bar0.set_message + tick, 5 = bar2.inc
+    for a in 0..6 {
+        for b in 0..6 {
+            for c in 0..6 {
+                for ti in 0..texts.len() {
+                    let term = InMemoryTerm::new(H, W as u16);
+                    let mp = MultiProgress::with_draw_target(ProgressDrawTarget::term_like(Box::new(term.clone())));
+                    let bars: Vec<ProgressBar> = (0..3).map(|i| {
+                        let pb = mp.add(ProgressBar::new(10));
+                        pb.set_style(ProgressStyle::with_template("{msg} {pos}").unwrap());
+                        pb.set_message(format!("bar{}", i));
+                        pb
+                    }).collect();
+                    let mut msgs = vec!["bar0".to_string(), "bar1".to_string(), "bar2".to_string()];
+                    let mut pos = [0u64; 3];
+                    let mut logs: Vec<String> = vec![];
+                    let mut hist = vec!["three bars with template {msg} {pos}".to_string()];
+                    for (k, op) in [a, b, c].iter().enumerate() {
+                        let t = texts[(ti + k) % texts.len()];
+                        match *op {
+                            0 => { let _ = mp.println(t); logs.push(t.to_string()); hist.push(format!("mp.println({:?})", t)); }
+                            1 | 2 | 3 => { bars[op - 1].println(t); logs.push(t.to_string()); hist.push(format!("bar{}.println({:?})", op - 1, t)); }
+                            4 => { bars[0].set_message("renamed"); msgs[0] = "renamed".into(); hist.push("bar0.set_message(renamed)".into()); }
+                            _ => { bars[2].inc(1); pos[2] += 1; hist.push("bar2.inc(1)".into()); }
+                        }
+                        for pb in bars.iter() {
+                            pb.tick();
+                        }
+                        tried += 1;
+                        let mut rows: Vec<String> = logs.iter().flat_map(|l| wrap(l)).collect();
+                        for i in 0..3 {
+                            rows.push(format!("{} {}", msgs[i], pos[i]));
+                        }
+                        let want = rows.join("\n");
+                        let got = term.contents();
+                        if got != want {
+                            return report("C03 printed lines (also empty ones) stay once, in order, above the bars; C02 bars in order below", &hist, &want, &got, "multi_logs");
+                        }
+                    }
+                }
+            }
+        }
+    }
+    format!("{{\"found\": false, \"tried\": {}}}", tried)
+}
+
+/// C04: the configured finish behaviour is applied at every completion of a reused bar (finish, reset, finish again;
+/// iterator exhaustion twice; drop after reset), standalone and inside a MultiProgress.
+pub fn bar_reuse(_args: &[String]) -> String {
+    std::panic::set_hook(Box::new(|_| {}));
+    use indicatif::ProgressIterator;
+    let mut tried = 0u64;
+    for mode in 0..3 {
+        for second in 0..3 {
+            let term = InMemoryTerm::new(H, W as u16);
+            let pb = mk(&term, Some(4), None).with_finish(match mode {
+                0 => ProgressFinish::AndLeave,
+                1 => ProgressFinish::WithMessage("done".into()),
+                _ => ProgressFinish::AbandonWithMessage("gone".into()),
+            });
+            let mut hist = vec![format!("bar len=4 with_finish(mode {})", mode)];
+            for _ in (0..4).progress_with(pb.clone()) {}
+            hist.push("iterate 4 items to exhaustion".into());
+            pb.reset();
+            hist.push("reset".into());
+            match second {
+                0 => { for _ in (0..4).progress_with(pb.clone()) {} hist.push("iterate again to exhaustion".into()); }
+                1 => { pb.set_position(2); pb.finish_using_style(); hist.push("set_position(2); finish_using_style".into()); }
+                _ => { pb.set_position(2); hist.push("set_position(2); drop the last handle".into()); }
+            }
+            let (msg, pos) = match (mode, second) {
+                (0, 0) => ("", 4), (0, _) => ("", 4),
+                (1, _) => ("done", 4),
+                (_, 0) => ("gone", 4), (_, _) => ("gone", 2),
+            };
+            let want = format!("[{}]\n{}/4", msg, pos);
+            if second == 2 {
+                drop(pb);
+            }
+            tried += 1;
+            let got = term.contents();
+            if got != want {
+                return report("C04 the configured finish behaviour paints the final state at every completion of a reused bar", &hist, &want, &got, "bar_reuse");
+            }
+        }
+    }
+    format!("{{\"found\": false, \"tried\": {}}}", tried)
+}
+
+/// C05 (MultiProgress): a rate-limited (skipped) update of one bar is not lost: the next frame that is painted,
+/// whoever triggers it, shows the latest state of every bar.
+pub fn multi_rate(_args: &[String]) -> String {
+    std::panic::set_hook(Box::new(|_| {}));
+    let term = InMemoryTerm::new(H, W as u16);
+    let mp = MultiProgress::with_draw_target(ProgressDrawTarget::term_like_with_hz(Box::new(term.clone()), 2));
+    let a = mp.add(ProgressBar::new(40));
+    let b = mp.add(ProgressBar::new(40));
+    for (pb, n) in [(&a, "A"), (&b, "B")] {
+        pb.set_style(ProgressStyle::with_template("{prefix} {msg} {pos}/{len}").unwrap());
+        pb.set_prefix(n);
+    }
+    // use up the burst
+    for i in 0..60 {
+        a.set_message(format!("a{}", i));
+        b.set_message(format!("b{}", i));
+    }
+    a.set_position(20);
+    a.set_message("a-final");
+    // wait for one token (2 Hz -> 500 ms), then let B trigger the frame
+    std::thread::sleep(std::time::Duration::from_millis(700));
+    b.set_message("b-final");
+    let got = term.contents();
+    let want = "A a-final 20/40\nB b-final 0/40";
+    if got != want {
+        let hist = vec!["MultiProgress on a 2 Hz target, bars A and B".to_string(), "60 x (A.set_message, B.set_message)".to_string(), "A.set_position(20); A.set_message(a-final)".to_string(), "sleep 700 ms".to_string(), "B.set_message(b-final)".to_string()];
+        return report("C05 a skipped draw loses nothing: the next painted frame shows the latest state of every bar", &hist, want, &got, "multi_rate");
+    }
+    "{\"found\": false, \"tried\": 1}".to_string()
 }
